@@ -16,6 +16,7 @@ package main
 //   {"kind":"raw","json":text}           json.Unmarshal of arbitrary text into a ChainedLog
 //   {"kind":"time","s":text}             ledger.ParseTime, Format, UTC
 //   {"kind":"sha","hex":bytes}           crypto/sha256
+//   {"kind":"v1","rows":[{"id","type","hash","date","data"}]}  excluded point: legacy rows through LogV1.ToLogsV2 + ToCore
 //   {"kind":"ikbytes","hex":bytes}       excluded point: an idempotency key that is not valid UTF-8 (HTTP header bytes)
 //
 // output: see execLogrt; everything that came out of a map is sorted, big integers are decimal strings,
@@ -286,6 +287,12 @@ func genLogrt(r *rng, n int, tier string, emit func(J)) {
 	for _, s := range lrTimes {
 		emit(J{"kind": "time", "s": s})
 	}
+	emit(J{"kind": "v1", "rows": []any{
+		J{"id": "0", "type": "NEW_TRANSACTION", "hash": "79fc36b46f2668ee1f682a109765af8e849d11715d078bd361e7b4eb61fadc70", "date": "2023-12-13T18:21:05Z",
+			"data": `{"txid": 0, "metadata": {}, "postings": [{"asset": "USD/2", "amount": 10000, "source": "world", "destination": "bank"}], "reference": "", "timestamp": "2023-12-13T18:21:05Z"}`},
+		J{"id": "3", "type": "SET_METADATA", "hash": "839800b3bf685903b37240e8a59e1872d29c2ed9715a79c56b86edb5b5b0976f", "date": "2023-12-14T09:30:31Z",
+			"data": `{"metadata": {"foo": "bar"}, "targetId": "alice", "targetType": "ACCOUNT"}`},
+	}})
 	emit(J{"kind": "ikbytes", "hex": "6b6579ff"})
 	emit(J{"kind": "ikbytes", "hex": "c328"})
 	for _, l := range []int{0, 1, 31, 32, 54, 55, 56, 57, 63, 64, 65, 118, 119, 120, 121, 127, 128, 129, 183, 184, 191, 192, 193, 1000} {
@@ -717,6 +724,27 @@ func execLogrt(in J) J {
 			}
 		}
 		return out
+	case "v1":
+		rows, _ := in["rows"].([]any)
+		out := []any{}
+		var prev *ledger.ChainedLog
+		for _, ra := range rows {
+			r := ra.(map[string]any)
+			out = append(out, lrGuard(func() J {
+				id, _ := strconv.ParseUint(fmt.Sprint(r["id"]), 10, 64)
+				v1 := ledgerstore.LogV1{ID: id, Type: r["type"].(string), Hash: r["hash"].(string), Date: lrParse(r["date"]), Data: json.RawMessage(r["data"].(string))}
+				v2, err := v1.ToLogsV2()
+				if err != nil {
+					return J{"error": err.Error()}
+				}
+				core := v2.ToCore()
+				re := core.Log.ChainLog(prev)
+				prev = core
+				return J{"decoded": true, "stored_hash_is_hex_text": string(core.Hash) == v1.Hash,
+					"rehash_same": string(re.Hash) == string(core.Hash) || hex.EncodeToString(re.Hash) == v1.Hash}
+			}))
+		}
+		return J{"rows": out}
 	case "ikbytes":
 		s, _ := in["hex"].(string)
 		b, err := hex.DecodeString(s)
